@@ -1397,12 +1397,12 @@ pub trait QueryBuilder:
             Frame::UnboundedPreceding => write!(sql, "UNBOUNDED PRECEDING").unwrap(),
             Frame::Preceding(v) => {
                 self.prepare_value(&v.into(), sql);
-                write!(sql, "PRECEDING").unwrap();
+                write!(sql, " PRECEDING").unwrap();
             }
             Frame::CurrentRow => write!(sql, "CURRENT ROW").unwrap(),
             Frame::Following(v) => {
                 self.prepare_value(&v.into(), sql);
-                write!(sql, "FOLLOWING").unwrap();
+                write!(sql, " FOLLOWING").unwrap();
             }
             Frame::UnboundedFollowing => write!(sql, "UNBOUNDED FOLLOWING").unwrap(),
         }
